@@ -13,7 +13,21 @@
  * Output "S:<six values> M:<six values> R:ok" (the model driver prints reference values after
  * S: and model values after M:).  R: compares with an independent C transcription of the
  * published definitions (lookup2.c hash()/hash2() with libast's initial value, rotating,
- * one-at-a-time, FNV-1a by multiplication). */
+ * one-at-a-time, FNV-1a by multiplication).
+ *
+ * Case "big <hashes> <len> <seed> <align> <cseed>": the size class the list-of-cells model cannot be run on -
+ * length arguments of 2^31-1 and more (the parameter is a spif_uint32_t: every value up to 2^32-1 is legal).
+ * <hashes> is a string of digits 0..5 (jenkins, jenkinsLE, jenkins32, rotating, one-at-a-time, fnv); <len> is the
+ * LENGTH ARGUMENT each of them gets (bytes; for jenkins32 words, i.e. 4*len key bytes).  The key lives in a sparse
+ * mapping that commits next to nothing: cseed = 0 -> untouched MAP_NORESERVE anonymous pages (all zero), otherwise
+ * a 2 MiB pseudo-random chunk (memfd) mapped MAP_PRIVATE again and again; on top of either, ~1500 single bytes are
+ * poked in (copy-on-write, one page each): the first and last 40 bytes of the key, the bytes around offsets 2^31
+ * and 2^32, and pseudo-random offsets all over the key - a purely periodic key cancels out of the xor/rotate hashes.
+ * The key ends 0..7 bytes before a PROT_NONE page (start congruent to <align> modulo 8) and is read-only while
+ * the hashes run.  Each selected function is compared with the C transcription of its reference definition (the
+ * same one the R: field of every "h" case compares with, which ties it to the extracted reference on every small
+ * case).  Output "BIG:ok", or "BIG:differs <name>(len=..,seed=..)=<value> reference=<value> ...". */
+#define _GNU_SOURCE
 #include "common.h"
 #include <sys/mman.h>
 #include <stdint.h>
@@ -69,7 +83,8 @@ static ub4 ref_hash(const ub1 *k, ub4 length, ub4 initval)
 /* hash2(): the key as words; the words are composed from bytes so that no alignment is needed */
 static ub4 ref_word(const ub1 *k, ub4 i)
 {
-    return k[4 * i] + ((ub4) k[4 * i + 1] << 8) + ((ub4) k[4 * i + 2] << 16) + ((ub4) k[4 * i + 3] << 24);
+    const ub1 *p = k + (size_t) 4 * i;      /* not 4 * i in 32 bits: word arrays of 2^30 words and more */
+    return p[0] + ((ub4) p[1] << 8) + ((ub4) p[2] << 16) + ((ub4) p[3] << 24);
 }
 static ub4 ref_hash2(const ub1 *k, ub4 length, ub4 initval)
 {
@@ -152,9 +167,87 @@ static void six(ub4 *v, unsigned char *k, unsigned char *k32, ub4 len, ub4 seed)
     v[5] = spifhash_fnv(k, len, seed);
 }
 
+
+/* ---- keys of 2 GiB and more ---- */
+#define BIG_CHUNK ((size_t) 2 << 20)
+static uint64_t big_x;
+static uint64_t big_rnd(void) { big_x ^= big_x << 13; big_x ^= big_x >> 7; big_x ^= big_x << 17; return big_x; }
+
+static const char *big_names[6] = { "jenkins", "jenkinsLE", "jenkins32", "rotating", "one_at_a_time", "fnv" };
+
+static void run_big(const char *which, uint64_t len, ub4 seed, unsigned align, uint64_t cseed)
+{
+    uint64_t kbytes = len, span, i;
+    unsigned char *base, *guard, *key;
+    size_t d;
+    int has32 = strchr(which, '2') != NULL, bad = 0;
+    const char *w;
+
+    if (len > 0xffffffffULL || !*which || strspn(which, "012345") != strlen(which)) { printf("HARNESS-ERROR:bad-big-case"); return; }
+    if (has32) { kbytes = 4 * len; align &= 4; }       /* the word-wise hash needs a 4-aligned key */
+    align &= 7;
+    span = (kbytes + 8 + BIG_CHUNK - 1) / BIG_CHUNK * BIG_CHUNK;
+    base = (unsigned char *) mmap(NULL, span + pagesz, PROT_NONE, MAP_PRIVATE | MAP_ANONYMOUS | MAP_NORESERVE, -1, 0);
+    if (base == MAP_FAILED) { printf("HARNESS-ERROR:mmap-reserve"); return; }
+    guard = base + span;
+    if (cseed) {
+        int fd = memfd_create("lv-c18-key", 0);
+        unsigned char *c;
+        uint64_t o;
+        if (fd < 0) { FILE *tf = tmpfile(); fd = tf ? fileno(tf) : -1; }
+        if (fd < 0 || ftruncate(fd, (off_t) BIG_CHUNK)) { printf("HARNESS-ERROR:chunk-file"); return; }
+        c = (unsigned char *) mmap(NULL, BIG_CHUNK, PROT_READ | PROT_WRITE, MAP_SHARED, fd, 0);
+        if (c == MAP_FAILED) { printf("HARNESS-ERROR:chunk-map"); return; }
+        big_x = cseed * 0x9E3779B97F4A7C15ULL + 88172645463325252ULL;
+        for (i = 0; i < BIG_CHUNK; i += 8) { uint64_t v = big_rnd(); memcpy(c + i, &v, 8); }
+        munmap(c, BIG_CHUNK);
+        for (o = 0; o < span; o += BIG_CHUNK) {
+            if (mmap(base + o, BIG_CHUNK, PROT_READ | PROT_WRITE, MAP_PRIVATE | MAP_FIXED | MAP_NORESERVE, fd, 0) == MAP_FAILED) {
+                printf("HARNESS-ERROR:chunk-repeat"); return;
+            }
+        }
+        close(fd);
+    } else if (mprotect(base, span, PROT_READ | PROT_WRITE)) { printf("HARNESS-ERROR:mprotect"); return; }
+    for (d = 0; d < 8; d++) {
+        key = guard - kbytes - d;
+        if (((uintptr_t) key & 7) == align) break;
+    }
+    /* the poked bytes (never zero, so that on zero pages every one of them counts) */
+    big_x = (cseed + 1) * 0xD1B54A32D192ED03ULL + len;
+#define POKE(off) do { uint64_t o_ = (off); if (o_ < kbytes) key[o_] = (unsigned char) (big_rnd() >> 32 | 1); } while (0)
+    for (i = 0; i < 40; i++) { POKE(i); POKE(kbytes - 1 - i); }
+    for (i = 0; i < 16; i++) { POKE(0x7ffffff8ULL + i); POKE(0xfffffff8ULL + i); POKE(0x1fffffff8ULL + i); POKE(0x3fffffff8ULL + i); }
+    for (i = 0; i < 1400 && kbytes; i++) POKE(big_rnd() % kbytes);
+    for (i = 0; i < d; i++) guard[-1 - (ptrdiff_t) i] = 0xC3;     /* slack after the key: must not be read */
+    if (mprotect(base, span, PROT_READ)) { printf("HARNESS-ERROR:mprotect-ro"); return; }
+
+    for (w = which; *w; w++) {
+        ub4 v, r;
+        switch (*w) {
+            case '0': v = spifhash_jenkins(key, (ub4) len, seed);       r = ref_hash(key, (ub4) len, seed); break;
+            case '1': v = spifhash_jenkinsLE(key, (ub4) len, seed);     r = ref_hash(key, (ub4) len, seed); break;
+            case '2': v = spifhash_jenkins32(key, (ub4) len, seed);     r = ref_hash2(key, (ub4) len, seed); break;
+            case '3': v = spifhash_rotating(key, (ub4) len, seed);      r = ref_rotating(key, (ub4) len, seed); break;
+            case '4': v = spifhash_one_at_a_time(key, (ub4) len, seed); r = ref_oaat(key, (ub4) len, seed); break;
+            default:  v = spifhash_fnv(key, (ub4) len, seed);           r = ref_fnv1a(key, (ub4) len, seed); break;
+        }
+        if (v != r) {
+            printf("%s %s(len=%llu,seed=%u)=%u reference=%u", bad ? "" : "BIG:differs", big_names[*w - '0'],
+                   (unsigned long long) len, seed, v, r);
+            bad = 1;
+        }
+    }
+    if (!bad) printf("BIG:ok");
+    munmap(base, span + pagesz);
+}
+
 static void run_case(int n, char **t)
 {
     if (!region) setup();
+    if (n == 6 && !strcmp(t[0], "big")) {
+        run_big(t[1], strtoull(t[2], NULL, 10), (ub4) strtoul(t[3], NULL, 10), (unsigned) atoi(t[4]), strtoull(t[5], NULL, 10));
+        return;
+    }
     if (n == 5 && !strcmp(t[0], "h")) {
         unsigned align = (unsigned) atoi(t[1]) & 7;
         ub4 seed = (ub4) strtoul(t[2], NULL, 10);
